@@ -156,6 +156,28 @@ def _realise(ctx, yaw, n, exp, sc, root, delta, embs, perms) -> None:
             c2 = yaw.Catalog.from_dataframe(root / "c", dd, ra_name="ra", dec_name="dec", weight_name="w", redshift_name="z",
                                             patch_name="pid", overwrite=True, max_workers=1)
             check_meta(ctx, yaw, c2, e_num, e_sw, None, None, delta, "divide", "patch_index_column", detail)
+        if n % 3 == 1:
+            # a given centre that attracts no object (far side of the ring), at every position of the list: creation must
+            # refuse (C09) - a catalog that comes back must still have patch i = centre i for the N given centres
+            pos = (n // 3) % 4
+            far = np.deg2rad(np.array([sky.embed(36 + 2 * (n % 3), sc.M, emb)]))
+            pts = np.insert(cen.data, pos, far, axis=0)
+            ctx.evaluated(1, ("empty_centre", emb, perm, pos))
+            try:
+                c3 = yaw.Catalog.from_dataframe(root / "e", dref, ra_name="ra", dec_name="dec", weight_name="w", redshift_name="z",
+                                                patch_centers=yaw.AngularCoordinates(pts), overwrite=True, max_workers=1, chunksize=3)
+            except Exception:  # noqa: BLE001 - refused
+                c3 = None
+            if c3 is not None:
+                keys = list(c3.keys())
+                place = ["first", "middle", "middle", "last"][pos]
+                d3 = dict(detail, given_centres=pts.tolist(), empty_centre_position=pos, keys=keys)
+                if keys != list(range(4)):
+                    ctx.violation(f"C12|apply|centre_without_objects_{place}|patch_ids_not_0_to_N-1", d3)
+                else:
+                    got = c3.get_centers().data
+                    if any(ang_dist(got[i], pts[i]) > 1e-12 for i in range(4)):
+                        ctx.violation(f"C12|apply|centre_without_objects_{place}|patch_i_is_not_centre_i", dict(d3, stored=got.tolist()))
         if len(ctx.samples) < 4 and nontriv:
             ctx.sample(dict(detail, expected_num=e_num, expected_radius_steps=e_rad))
 
